@@ -189,7 +189,8 @@ theorem enterPrecommit_fires (cfg : Config) (h r : Nat) (σ : State) (hh : σ.he
     (hs : σ.step.toNat < 6) :
     enterPrecommit cfg h r σ = { doPrecommit cfg r σ with round := r, step := .precommit } := by
   unfold enterPrecommit
-  rw [if_neg (by rw [show Step.precommit.toNat = 6 from rfl]; omega)]
+  rw [if_neg (by rw [show Step.precommit.toNat = 6 from rfl]; omega),
+    if_neg (by intro hc; rw [hc] at hs; exact absurd hs (by decide))]
 
 theorem enterPrecommit_noop (cfg : Config) (h r : Nat) (σ : State) (hr : σ.round = r)
     (hs : 6 ≤ σ.step.toNat) : enterPrecommit cfg h r σ = σ := by
